@@ -19,7 +19,12 @@ type Pair struct {
 	K, V []byte
 }
 
-func (p Pair) String() string { return fmt.Sprintf("%x=%x", p.K, p.V) }
+func (p Pair) String() string {
+	if len(p.V) > 64 {
+		return fmt.Sprintf("%x=<%d bytes %x..%x>", p.K, len(p.V), p.V[:4], p.V[len(p.V)-4:])
+	}
+	return fmt.Sprintf("%x=%x", p.K, p.V)
+}
 
 // Map is the ordered byte-string map. Values are never nil (an empty value is a value).
 type Map struct {
@@ -186,6 +191,9 @@ func FormatPairs(ps []Pair) string {
 func FormatBytes(b []byte) string {
 	if b == nil {
 		return "nil"
+	}
+	if len(b) > 64 {
+		return fmt.Sprintf("<%d bytes %x..%x>", len(b), b[:4], b[len(b)-4:])
 	}
 	return fmt.Sprintf("%q", fmt.Sprintf("%x", b))
 }
